@@ -94,6 +94,7 @@ func TestPlan(t *testing.T) {
 		// the binary leg of the cache properties: incremental runs through the real CLI
 		p.Rule = "binary leg: programs of 1-3 tasks (no / literal / glob file dependency, task dependencies, selected by name or as the default task) run 2-6 times through the CLI under {plain, --json, --quiet, --debug, --json --quiet} from the project root or a nested directory, with edits of dependency files in between; the side-effect log must show a task running exactly when it has no file dependency, never ran, or a file it depends on was edited since its last run"
 		binShards("^TestSkipBinary$", 8, 40, 16, 500)
+		p.Shards = append(p.Shards, ev.ShardSpec{Name: "skiptemplates-0", Test: "^TestSkipTemplates$", TimeoutS: 900})
 	case "C08":
 		// the binary leg of C08: the CLI reports exactly the parser's located error for the file's text
 		p.Rule = "binary leg: permissive-grammar texts (with blank / whitespace-only lines added in front or behind) that do not parse are written as a spokfile; `spok --show` and `spok --fmt` must terminate, exit non-zero without a Go panic and print the very error the parser gives for that text (same line number, same quoted line)"
@@ -110,6 +111,7 @@ func TestPlan(t *testing.T) {
 		p.Rule += "; and the incremental-run leg of C01/C02 (programs with glob dependencies, spokfile optionally a symbolic link into another directory, optionally run from elsewhere with --spokfile, files of the same names edited outside the project): a task runs again exactly when a file its pattern denotes was edited"
 		prefix = "binskip"
 		binShards("^TestSkipBinary$", 8, 40, 16, 400)
+		p.Shards = append(p.Shards, ev.ShardSpec{Name: "skiptemplates-0", Test: "^TestSkipTemplates$", TimeoutS: 900})
 	case "C14":
 		// the binary leg of C14: --force with explicitly and implicitly selected tasks (default task, clean task)
 		p.Rule = "binary leg: programs of 1-3 tasks (file dependencies, task dependencies) run once so that every task is cached, then run with --force selected by name, through the default task (`spok --force`) or through a user-defined clean task (`spok --clean --force`), optionally with --json/--quiet; every task of the closure must execute again and none be reported skipped"
@@ -535,6 +537,37 @@ func TestSkipBinary(t *testing.T) {
 		}
 		return execSkip(id(), s, b, c)
 	})
+}
+
+// TestSkipTemplates: one task, every pair of ways to start spok, an edit that is undone again:
+// run (way 1), edit, run (way 2), undo the edit, run (way 1), run (way 2).
+func TestSkipTemplates(t *testing.T) {
+	s := ev.Open(t, id())
+	b := newBox(t)
+	ways := []SkipStep{{}, {Nested: true}, {Elsewhere: true}, {Style: "rel-dot"}, {Style: "rel-parent"}}
+	seen := map[string]bool{}
+	for _, dep := range []string{"in.txt", "src/*.go", "**/*.go"} {
+		file := "in.txt"
+		if dep != "in.txt" {
+			file = "src/a.go"
+		}
+		for _, w1 := range ways {
+			for _, w2 := range ways {
+				for _, link := range []bool{false, true} {
+					c := SkipCase{NTasks: 1, FileDep: []string{dep}, SpokLink: link, Steps: []SkipStep{w1, {Edit: file}, w2, {Edit: file, Revert: true}, w1, w2}}
+					s.Eval()
+					s.Class("enumerated_start_pairs")
+					if f := execSkip(id(), s, b, c); f != nil && !seen[f.Sig] {
+						seen[f.Sig] = true
+						s.Violation("skipbin", f.Sig, f.Msg, f.Size, c)
+					}
+				}
+			}
+		}
+	}
+	if s.Failed() {
+		t.Fatal("violations recorded")
+	}
 }
 
 func TestErrBinary(t *testing.T) {
